@@ -29,7 +29,7 @@ RULE = (
     "tcgetattr, F_GETFL, getsignal(SIGINT), the wake-up fd, the number of open descriptors; F_GETFL after every request; reference "
     "terminal: cursor visible, main buffer active, main screen cells untouched (FullscreenWindow), nothing above the entry row "
     "touched (CursorAwareWindow). Non-trivial: exit by exception, a nested stack, or a non-default initial handler/flags."
-    ' Context objects that allow it (Input, Cbreak, Nonblocking, Termmode) are entered again up to 3 times with the tty in a different state each time; requests may find up to 3000 bytes waiting; SIG_DFL among the pre-existing handlers.'
+    ' Context objects that allow it (Input, Cbreak, Nonblocking, Termmode) are entered again up to 3 times with the tty in a different state, another pre-existing SIGINT handler and the wake-up descriptor toggled (none / pipe) each time; requests may find up to 3000 bytes waiting; SIG_DFL among the pre-existing handlers.'
 )
 ASSUMPTIONS = [
     "descriptors created by threadsafe_event_trigger() belong to the returned callback (usable after the context is left) and are closed by the harness before counting",
